@@ -285,6 +285,14 @@ func (fr *Frame) intrinsic(fn *ssa.Function, args []Value, pc *Term, in ssa.Inst
 			ex.Obls = append(ex.Obls, Obligation{Kind: "reach", Cond: pc, Label: label, Pos: ex.pos(in), Fn: fr.fn.String()})
 			ex.Obls = append(ex.Obls, Obligation{Kind: "assert", Cond: ts.And(pc, ts.Not(c)), Label: label, Pos: ex.pos(in), Fn: fr.fn.String()})
 			return nil, true
+		case "Observe":
+			nm := ex.constStrArg(args[0])
+			iv, ok := args[1].(*VIface)
+			if !ok || len(iv.Alts) != 1 {
+				panic(unsupported("Observe of a non-constant-typed value"))
+			}
+			ex.Observes = append(ex.Observes, ObserveRec{Name: nm, G: ts.And(pc, ex.concPrefix()), Val: iv.Alts[0].V, Typ: iv.Alts[0].T})
+			return nil, true
 		case "Exit":
 			// the process ends here (os.Exit / log.Fatal): nothing after it is reachable
 			ex.Assumes = append(ex.Assumes, ts.Not(pc))
